@@ -243,6 +243,12 @@ def runC03 (t : Tier) : Emit Unit := do
       let u : Spec.TSUnit := { pid := pidT, payload := unit, data := [], psi := true, chunks := [unit.length] }
       let st : Spec.StreamModel := { units := (if pidT = 0 then [u] else [pat0, u]), schedule := [] }
       emit "C03" (demuxCase st.bytes { view := .seq } none none "tiny-section-length")
+  -- the CAT PID (1): units that look like a PES, like a PAT, like nothing — none of them is delivered as data
+  for payload in ([[0, 0, 1, 0xe0, 0, 0, 0x80, 0, 0, 1, 2, 3], [0, 0, 0xb0, 0x0d, 0, 1, 0xc1, 0, 0, 0, 1, 0xf0, 0, 0x2a, 0xb1, 0x04, 0xb2],
+                   [0, 1, 0xb0, 0x05, 1, 2, 3, 4, 5], [9, 9, 9, 9]] : List Bytes) do
+    let u1 : Spec.TSUnit := { pid := 1, payload := payload, data := [], psi := false, chunks := [payload.length] }
+    let st : Spec.StreamModel := { units := [pat0, u1, u1, u1], schedule := [] }
+    emit "C03" (demuxCase st.bytes { view := .seq } none none "cat-pid")
   -- PES units whose length fields contradict each other and the unit (PES_packet_length x PES_header_data_length x
   -- flags x unit size), one unit per stream
   for sid in [0xe0, 0xc0, 0xbd] do
